@@ -63,6 +63,9 @@ def gen_builds(ctx, count, versions=None, all_cells=False, forced_masks=True, st
 
     def add(m, e, v, n, force_v, force_m, force_mode, kind="random"):
         data = payload(rng, m, n, kind)
+        if force_mode and m > 0 and rng.random() < 0.3:
+            # the forced mode is less dense than what the payload would get automatically (digits under Alphanumeric / Byte ...)
+            data = payload(rng, rng.randrange(0, m), n, "random")
         fm = m if force_mode else None
         if not force_mode:
             # automatic mode must classify the payload as m for the length to fit: use mode-typical payloads
@@ -333,7 +336,17 @@ def run_C02(ctx):
             sc.append("struct %d %d %s" % (e, v, hexs(data)))
             if not ctx.quick or (v + e) % 5 == 0:
                 sc.append("struct %d %d %s" % (e, v, hexs(bytes(ctx.rng.randrange(256) for _ in range(d)))))
-    ctx.correspond("structure", sc)
+    simpl, _ = ctx.correspond("structure", sc)
+    tr = []
+    for c, o in zip(sc, simpl):
+        p = c.split()
+        q = o.split()
+        if len(q) == 3 and q[0] == "OK":
+            tr.append(("orsstream %s %s %s %s" % (p[2], p[1], q[1], p[3]), "1", {"case": c[:400]}))
+            ctx.count_oracle("structure_tail_zero", 1)
+            if q[2] != "0":
+                ctx.direct_failure("structure_tail_zero", {"case": c[:400]}, "non-zero bytes after the codewords: " + q[2])
+    ctx.oracle("structure_blocks", tr)
 
 
 # ------------------------------------------------------------------------------------------ C03 / C15
@@ -379,6 +392,12 @@ def run_C04(ctx):
         for e in range(4):
             for k in range(8):
                 cases.append(build_case(None, e, v, k, payload(ctx.rng, 2, 1 + (v + e + k) % 7, "ascii")))
+    for v in range(40):
+        cases.append(build_case(None, v % 4, v, (v * 3) % 8, payload(ctx.rng, 2, 2 + v % 5, "ascii")))
+    # forced modes that are less dense than the automatic choice must be reported as forced
+    for m, data in [(1, b"0123456789"), (2, b"0123456789"), (2, b"HELLO WORLD"), (1, b"")]:
+        for e in range(4):
+            cases.append(build_case(m, e, None, None, data))
     cases += gen_builds(ctx, 150 if ctx.quick else 3000)
     impl, _ = ctx.correspond("build", cases)
     symbol_oracles(ctx, cases, impl, ["format", "fields", "decode"])
@@ -636,6 +655,9 @@ def run_C09(ctx):
     for _ in range(60 if ctx.quick else 1000):
         m = rng.randrange(3)
         bc.append(build_case(None, rng.randrange(4), None, None, payload(rng, m, rng.randrange(0, 80), "ascii" if m == 2 else "random")))
+    for b in range(256):
+        bc.append(build_case(None, 1, None, None, b"AB" + bytes([b])))
+        bc.append(build_case(None, 1, None, None, b"12" + bytes([b]) + b"34567890"))
     impl, _ = ctx.correspond("build", bc)
     no_panic(ctx, "build", bc, impl)
     symbol_oracles(ctx, bc, impl, ["decode"])
@@ -664,6 +686,9 @@ def run_C10(ctx):
         step = 97 if ctx.quick else 7
         for n in range(0, 8001, step):
             cases.append(build_case(None, rng.randrange(4), None, None, payload(rng, rng.randrange(3), n)))
+    for b in range(256):
+        cases.append(build_case(None, rng.randrange(4), None, None, b"AB" + bytes([b])))
+        cases.append(build_case(None, rng.randrange(4), None, None, b"7" * 8 + bytes([b]) + b"7" * 7))
     impl, _ = ctx.correspond("build", cases)
     no_panic(ctx, "build", cases, impl)
     for c, o in zip(cases, impl):
@@ -756,7 +781,22 @@ def run_C11(ctx):
         dens = rng.random()
         bs = bytes((1 if rng.random() < dens else 0) | ((0 if rng.random() < 0.85 else rng.randrange(1, 8)) << 1) for _ in range(sz * sz))
         sc.append("score %d %s" % (sz, hexs(bs)))
-    ctx.correspond("score", sc)
+    simpl, _ = ctx.correspond("score", sc)
+    tr = []
+    for c, o in zip(sc, simpl):
+        p = c.split()
+        q = o.split()
+        if len(q) == 6:
+            # implementation: line col patt dark squares total ; spec parts: rows+cols runs, 40*windows, ratio
+            tr.append(("openparts %s %s" % (p[1], p[2]), "%d %s %s" % (int(q[0]) + int(q[1]), q[2], q[3]), {"case": c[:300]}))
+    ctx.oracle("penalty_parts", tr)
+    limpl = ctx.run_impl("line", lc[:400])
+    tr = []
+    for c, o in zip(lc[:400], limpl):
+        q = o.split()
+        if len(q) == 2:
+            tr.append(("openline %s" % c.split()[1], "%s %s" % (q[0], q[1]), {"case": c[:200]}))
+    ctx.oracle("line_spec", tr)
 
 
 # ------------------------------------------------------------------------------------------ C16
@@ -818,6 +858,7 @@ def rgba_hex(rng, alpha=None):
 
 
 IMAGE_STRINGS = ["https://example.com/logo.png", "data:image/png;base64,iVBORw0KGgo=", "./assets/a b.svg",
+                 "data:image/svg+xml;utf8,<svg xmlns=\"http://www.w3.org/2000/svg\"/>", "data:text/plain,a&b", "data:,'",
                  "https://x.y/?a=1&b=\"2\"<>", "it's <&> \"q\"", "&amp;", "/tmp/\u00e9\u20ac\U0001F680.png", "a\tb\nc\rd", "]]>", "&#38;", ""]
 
 
@@ -873,7 +914,18 @@ def gen_svg_cases(ctx, count, versions, with_image=True):
                 opts.append("igap=%s" % rng.choice(["0", "1", "0.5", "2.25", "1.75"]))
             if rng.random() < 0.3:
                 opts.append("ipos=%s,%s" % (rng.choice(["10", "12.5", "8.25"]), rng.choice(["10", "11.5", "14.75"])))
-        cases.append("svg %d %s %s" % (n, hx, " ".join(opts)))
+        layers = [o for o in opts if o.startswith("shape")]
+        others = [o for o in opts if not o.startswith("shape")]
+        rng.shuffle(others)
+        merged = []
+        li = 0
+        for o in others:
+            while li < len(layers) and rng.random() < 0.5:
+                merged.append(layers[li])
+                li += 1
+            merged.append(o)
+        merged += layers[li:]
+        cases.append("svg %d %s %s" % (n, hx, " ".join(merged)))
     return cases
 
 
@@ -982,6 +1034,33 @@ def run_C14(ctx):
     for c, o in zip(cases, impl):
         if o.startswith("OK") and any(tok.startswith("0:") for tok in o.split()[1:]):
             ctx.direct_failure("shared_vs_fresh_builder", {"case": c[:300]}, "a build on a reused builder differs from a fresh builder with the same final options: " + o[:80])
+    # order independence: the same build cases in one process, in two different orders, must give the same outputs
+    oc = []
+    for i in range(60 if ctx.quick else 600):
+        m = rng.randrange(3)
+        oc.append(build_case(None, rng.randrange(4), None, None, payload(rng, m, rng.choice([1, 2, 3, 5, 8, 13, 20]), "ascii" if m == 2 else "random"), "sel"))
+    oc += [build_case(None, 3, None, None, b"abc", "sel")] * 3
+    a1 = run_exe(FQH, oc, "h_order_a", shards=1)
+    rev = list(reversed(oc))
+    a2 = list(reversed(run_exe(FQH, rev, "h_order_b", shards=1)))
+    ctx.count_oracle("order_independence", len(oc))
+    for c, x, y in zip(oc, a1, a2):
+        if x != y:
+            ctx.direct_failure("order_independence", {"case": c[:300], "note": "same process, different preceding builds"}, "outputs differ: %s vs %s" % (x[:60], y[:60]))
+    # renderer option order (everything except the shape layers is last-value-wins, so order must not matter)
+    so = gen_svg_cases(ctx, 20 if ctx.quick else 300, [1, 6], with_image=True)
+    so2 = []
+    for c in so:
+        p = c.split()
+        layers = [o for o in p[3:] if o.startswith("shape")]
+        others = [o for o in p[3:] if not o.startswith("shape")]
+        so2.append(" ".join(p[:3] + list(reversed(others)) + layers))
+    r1 = ctx.run_impl("svg_order_a", so)
+    r2 = ctx.run_impl("svg_order_b", so2)
+    ctx.count_oracle("setter_order_irrelevant", len(so))
+    for c, c2, x, y in zip(so, so2, r1, r2):
+        if x != y:
+            ctx.direct_failure("setter_order_irrelevant", {"case": c[:400], "reordered": c2[:400]}, "SVG output depends on the order of last-value-wins setters")
     th = ["threads %d %d %d" % (nt, 3 if ctx.quick else 12, ctx.seed * 31 + nt) for nt in ([1, 2, 4, 8, 16] if ctx.quick else range(1, 17))]
     impl, _ = ctx.correspond("threads", th)
     ctx.count_oracle("threads_equal_sequential", len(th))
@@ -1013,7 +1092,7 @@ def rand_colour_string(rng):
         return ("#" if rng.random() < 0.5 else "") + "".join(rng.choice(HEXD) for _ in range(rng.randrange(0, 11)))
     if r < 0.7:
         return rng.choice(["", "#", "zz", "\u00e9", "\u20aca", "#12345", "+1+2+3", "-1-2-3", "#ggggggff", "red", "##aabbcc", "#aabbcc#", "aabbccdde",
-                           "\U0001F680\U0001F680", "ab\u00e9cd", "+f+f+f+f", "0x0x0x", " aabbcc", "#AABBCCDD", "\u00e9\u00e9\u00e9"])
+                           "\U0001F680\U0001F680", "ab\u00e9cd", "#a\u00e90000", "a\u00e90000", "#00000\u20ac", "#0\U0001F6800", "+f+f+f+f", "0x0x0x", " aabbcc", "#AABBCCDD", "\u00e9\u00e9\u00e9"])
     return "".join(rng.choice("0123456789abcdef#+-gG \u00e9z") for _ in range(rng.randrange(0, 10)))
 
 
@@ -1053,7 +1132,8 @@ def run_C17(ctx):
                 ops.append("version=%d" % rng.choice([0, 1, 5, 12, 39]))
         cases.append("wasm %s %s" % (hexs(content), " ".join(ops)))
     # every single-setter history with malformed values
-    for col in ["", "#", "zz", "\u00e9", "\u20aca", "#12345", "+1+2+3", "#gg0000", "#aabbcc", "#aabbccdd", "aabbccdde", "\U0001F680"]:
+    for col in ["", "#", "zz", "\u00e9", "\u20aca", "#12345", "+1+2+3", "#gg0000", "#aabbcc", "#aabbccdd", "aabbccdde", "\U0001F680",
+                "#a\u00e90000", "#00000\u20ac", "a\u00e9", "#\u00e9\u00e9\u00e9"]:
         for key in ["modcol", "bg", "ibg"]:
             cases.append("wasm 78 %s=%s" % (key, hexs(col)))
             cases.append("wasm 78 image=%s %s=%s" % (hexs("i.png"), key, hexs(col)))
@@ -1151,13 +1231,13 @@ def run_C17(ctx):
 def run_C18(ctx):
     import re as _re
     rng = ctx.rng
-    versions = list(range(40)) if not ctx.quick else [0, 1, 2, 6, 9, 20, 26, 39]
+    versions = list(range(40))
     mats = symbol_matrices(ctx, versions)
     cases = []
     meta = []
     for v, (n, hx) in sorted(mats.items()):
-        for ish in range(3):
-            for margin in (range(0, 17) if not ctx.quick else [0, 3, 4, 16]):
+        for ish in (range(3) if not ctx.quick else [v % 3]):
+            for margin in (range(0, 17) if not ctx.quick else [[0, 4, 16, 3][v % 4]]):
                 cases.append("svg %d %s margin=%d image=%s ishape=%d" % (n, hx, margin, hexs("i.png"), ish))
                 meta.append((v, n, margin, None, None, None))
     for _ in range(30 if ctx.quick else 600):
@@ -1211,10 +1291,11 @@ def run_C18(ctx):
                 bad.append("frame touches finder/separator area")
             if iw > fw + 1e-9:
                 bad.append("image larger than frame")
-            key = (margin, c.split("ishape=")[1][:1])
-            if key in prev_side and prev_side[key][0] < v and prev_side[key][1] > fw:
-                bad.append("frame side shrinks as the version grows")
-            prev_side[key] = (v, fw)
+            key = "any"
+            if key in prev_side and prev_side[key][0] <= v and prev_side[key][1] > fw:
+                bad.append("frame side shrinks as the version grows (%s at version index %d, %s here)" % (prev_side[key][1], prev_side[key][0], fw))
+            if key not in prev_side or prev_side[key][0] <= v:
+                prev_side[key] = (v, max(fw, prev_side.get(key, (0, 0))[1]) if False else fw)
         else:
             if size is not None and abs(iw - size) > tol:
                 bad.append("image size not honoured")
@@ -1235,8 +1316,8 @@ def run_C18(ctx):
 def run_C19(ctx):
     wd = os.path.join(WORK, "files")
     os.makedirs(wd, exist_ok=True)
-    classes = ["ok", "missingdir", "isdir", "devfull", "procfs", "longname", "nul"]
-    cases = ["file %s %s %s" % (k, cl, wd) for k in ("svg", "png") for cl in classes]
+    classes = ["ok", "overwrite", "missingdir", "isdir", "devfull", "procfs", "longname", "nul"]
+    cases = ["file %s %s %s %s" % (k, cl, wd, sz) for k in ("svg", "png") for cl in classes for sz in ("small", "large")]
     if not ctx.quick:
         cases = cases * 5
     impl, _ = ctx.correspond("file", cases)
@@ -1244,7 +1325,7 @@ def run_C19(ctx):
     ctx.count_oracle("all_or_error", len(cases))
     for c, o in zip(cases, impl):
         cl = c.split()[2]
-        if cl == "ok":
+        if cl in ("ok", "overwrite"):
             if o != "RET_OK same=1":
                 ctx.direct_failure("all_or_error", {"case": c}, "write to a writable path: " + o)
         else:
